@@ -83,9 +83,10 @@ BLOCK_EX_BURNS = 'FungibleBurnable' in _block_src
 A_TOKEN, A_ADMIN, A_C01, A_C02 = _list('allow', 'allow', 'allow_ex', True)
 B_TOKEN, B_ADMIN, B_C01, B_C02 = _list('block', 'block', 'block_ex', BLOCK_EX_BURNS)
 
+# compositions of the step clauses (add/remove takes_effect_immediately + transfer from/to_vetted): thorough tier only
 HISTORY = [
-    K('gates::list_history::disallow_then_transfer_refused', functions=['examples/fungible-allowlist ExampleContract::{disallow_user,transfer}'], bounds=B + '; two invocations'),
-    K('gates::list_history::block_then_transfer_refused', functions=['examples/fungible-blocklist ExampleContract::{block_user,transfer}'], bounds=B + '; two invocations'),
+    K('gates::list_history::disallow_then_transfer_refused', tier='thorough', functions=['examples/fungible-allowlist ExampleContract::{disallow_user,transfer}'], bounds=B + '; two invocations'),
+    K('gates::list_history::block_then_transfer_refused', tier='thorough', functions=['examples/fungible-blocklist ExampleContract::{block_user,transfer}'], bounds=B + '; two invocations'),
 ]
 
 CAP_MINT = K('gates::capped::example_mint', functions=BASE + ['examples/fungible-capped ExampleContract::mint', 'fungible::capped::check_cap', 'fungible::Base::mint'], bounds=B)
